@@ -5,7 +5,7 @@ FAMILIES = ['plain', 'timeout', 'resize', 'saturate']
 PER_FAMILY = (300, 6000)
 
 
-PROOF = S.pool_proof('C08', ['C08_never_more_than_max', 'C08_accepted_submit_fills_the_pool', 'C08_structure'],
+PROOF = S.pool_proof('C08', ['C08_never_more_than_max', 'C08_accepted_submit_fills_the_pool', 'C08_registered_job_always_has_a_worker_coming', 'C08_structure'],
                     "'max_workers tasks do run simultaneously' is observed in the saturate family (the model counts registered workers, not running tasks); max_workers changes by _resize are not modelled")
 
 
